@@ -85,6 +85,8 @@ PROGRAMS = [
     "if a:\n\tb = 1  \n\n\tif c:\n\t\td = [e,\n\t\t     f]\t# t\n\t  \n\tg = 2\n\x0c\nclass K:\n        x = 1\n\n        def m(s): return s \ndef h():\n  \'\'\'d\'\'\'\n  return 1\n",
     # 60: undelimited sequences spread over lines (subscript index, backslash-continued tuples) with multi-byte text on their first line
     "v = y['é', a,\n      b]\nfor i in 'ü', c, \\\n    d: pass\nw = 'ñ', e, \\\n    f\ndel x['ö', g,\n  h], z",
+    # 61: operands that start with an operator / bracket / quote directly behind a keyword
+    "def f():\n    x = yield-a\n    y = yield from[b]\n    assert-c, 'm'\n    del[d][0]\n    while-e: pass\n    z = g if-h else i, j in[k], not[l], n is-o\n    raise-p from-q\n    return-r",
 ]
 
 for _p in PROGRAMS:
